@@ -577,6 +577,27 @@ func Select(a, i *Term) *Term {
 	if a.Op == "constarr" {
 		return a.Args[0]
 	}
+	if a.Op == "barr" && a.Args[0].Op == "app" {
+		b := a.Args[0]
+		switch b.Name {
+		case "snap":
+			// defining axiom of snap, applied eagerly
+			return Ite(BVUlt(i, b.Args[2]), Select(b.Args[0], BVAdd(b.Args[1], i)), BV(8, 0))
+		case "cat":
+			// defining axiom of cat for an index inside a constant-length prefix
+			if la, ok := Blen(b.Args[0]).U64(); ok {
+				if iv, ok := i.U64(); ok && iv < la {
+					return Select(Barr(b.Args[0]), i)
+				}
+			}
+		}
+	}
+	return intern(&Term{Op: "select", Sort: es, Args: []*Term{a, i}})
+}
+
+// RawSelect builds a select term without applying the eager rewrites (used to state instances of axioms).
+func RawSelect(a, i *Term) *Term {
+	_, es := arraySorts(a.Sort)
 	return intern(&Term{Op: "select", Sort: es, Args: []*Term{a, i}})
 }
 
@@ -607,6 +628,18 @@ func Barr(b *Term) *Term {
 func Blen(b *Term) *Term {
 	if b.Op == "mkb" {
 		return b.Args[1]
+	}
+	if b.Op == "app" {
+		switch b.Name {
+		case "snap":
+			return b.Args[2]
+		case "moduleAddr", "addrOf":
+			return BV(64, 20)
+		case "keccak":
+			return BV(64, 32)
+		case "ecrecKey":
+			return BV(64, 65)
+		}
 	}
 	if b.Op == "ite" {
 		return Ite(b.Args[0], Blen(b.Args[1]), Blen(b.Args[2]))
@@ -676,6 +709,9 @@ func Subst(t *Term, m map[*Term]*Term) *Term {
 	return rec(t)
 }
 
+// rebuildApp lets the spec layer re-fold prelude functions (snap, cat) after substitution.
+var rebuildApp func(name string, args []*Term) *Term
+
 func rebuild(t *Term, args []*Term, rec func(*Term) *Term) *Term {
 	switch t.Op {
 	case "not":
@@ -708,6 +744,44 @@ func rebuild(t *Term, args []*Term, rec func(*Term) *Term) *Term {
 		return BVUlt(args[0], args[1])
 	case "bvule":
 		return BVUle(args[0], args[1])
+	case "bvslt":
+		return BVSlt(args[0], args[1])
+	case "bvsle":
+		return BVSle(args[0], args[1])
+	case "bvmul":
+		return BVMul(args[0], args[1])
+	case "bvand":
+		return BVAndT(args[0], args[1])
+	case "bvor":
+		return BVOrT(args[0], args[1])
+	case "bvxor":
+		return BVXorT(args[0], args[1])
+	case "bvshl":
+		return BVShl(args[0], args[1])
+	case "bvlshr":
+		return BVLshr(args[0], args[1])
+	case "bvudiv":
+		return BVUdiv(args[0], args[1])
+	case "bvurem":
+		return BVUrem(args[0], args[1])
+	case "bvnot":
+		return BVNot(args[0])
+	case "concat":
+		return Concat(args[0], args[1])
+	case "extract":
+		var hi, lo int
+		fmt.Sscanf(t.Name, "(_ extract %d %d)", &hi, &lo)
+		return Extract(hi, lo, args[0])
+	case "zero_extend":
+		return ZeroExt(t.Width(), args[0])
+	case "sign_extend":
+		return SignExt(t.Width(), args[0])
+	case "app":
+		if rebuildApp != nil {
+			if r := rebuildApp(t.Name, args); r != nil {
+				return r
+			}
+		}
 	case "forall", "exists":
 		var pats [][]*Term
 		for _, p := range t.Pats {
@@ -926,6 +1000,7 @@ func containsFreeBound(t *Term, boundSet map[*Term]int) bool {
 }
 
 const preludeDT = `(declare-datatypes ((Bytes 0)) (((mkb (barr (Array (_ BitVec 64) (_ BitVec 8))) (blen (_ BitVec 64))))))
+(declare-sort Ext 0)
 `
 
 // Script builds the full SMT-LIB text. extraDecls is prelude text (function
